@@ -31,6 +31,8 @@ func init() {
 			{"C01.R10", "q", "shared: tree items carry position, version and value hash", c01r10},
 			{"C02.R9", "q", "shared: choice of the tree dump at start-up", c02r9},
 			{"C10.R8", "q", "shared: value hashes are taken over decompressed bytes", c10r8},
+			{"C08.R10", "q", "fresh tree: only leaf-level summaries valid", c08r10},
+			{"C04.L7", "q", "shared: tree node summaries read under the tree lock", c04l7},
 		},
 	})
 }
